@@ -8,7 +8,7 @@ fail=0
 [ "$1" = "--seeded-only" ] || grep '^fixed:' KNOWN_FINDINGS.txt | while read -r _ prop commit rest; do
   p=${prop#property=}
   # a repair whose symptom a later, independent repair also removes is reverted together with it
-  case $commit in 191c3b8) commit=191c3b8,c3a7f52 ;; esac
+  case $commit in 191c3b8) commit=191c3b8,c3a7f52 ;; c39f38b) commit=f70a095,c39f38b ;; esac
   out=$(engine/at_commit.sh HEAD "revert:$commit" -- "$p" 2>&1); rc=$?
   case $rc in
     1) echo "DETECTED   $p revert $commit" ;;
